@@ -20,6 +20,7 @@ LEVEL_NOTE = ('np.where = increasing enumeration, np.random.randint/choice range
 EXPLANATION = LEVEL_TEXT
 BOUNDED_RULE = 'exhaustive bit strings <= 12 (encoder/decoder, all container forms), all slot patterns <= 16 slots for M <= 8 (HDD, 3 numpy seeds), random long sequences; distinct = distinct (M, pattern)'
 ORDERS = [2, 4, 8, 16, 32, 64, 128, 256]
+ASSUMPTIONS = ['C12.sdd: the non-linear arithmetic facts (S*M*sps) mod (M*sps) = 0 and (S*M*sps) div sps = S*M are supplied to the solver as lemmas']
 
 
 def dec2bin_contract(ex, args, kw):
@@ -108,7 +109,8 @@ def _mk_enc(M):
             b = mk_binseq(ex, 'b', n)
             enc = ex.call_fn(fe, [b, M], {})
             ed = enc.f['data']
-            ed.meta = {'onehot_blocks': (M, lambda t: sym_value(b.f['data'], tonum(t), k), tonum(ed.shape[0]) / M)}    # checked by np.where, not trusted
+            # structural hint for np.where (verified there by the solver, never trusted): one ON slot per block at the symbol value
+            ex.where_hints = [(M, lambda t: sym_value(b.f['data'], tonum(t), k), tonum(ed.shape[0]) / M)]
             ex.overrides['utils.dec2bin'] = dec2bin_contract
             return b, ex.call_fn(fd, [enc, M], {})
         ps = K.paths(run_rt, [n >= k, i >= 0, i < (n / k) * k])
@@ -153,11 +155,14 @@ def setup_hdd(ex, M, inp_holder):
 
     def mk_inv(phase):
         def inv(ex, env, bound):
-            out, inp = env.get('output'), env.get('input')
-            if not isinstance(out, Arr) or not isinstance(inp, Arr):
+            out_, inp_ = env.get('output'), env.get('input')
+            if not isinstance(out_, Arr) or not isinstance(inp_, Arr):
                 raise Unsupported('HDD loop invariant names the locals `output` and `input`')
-            inp_holder['input'] = inp
-            S = tonum(inp.shape[0]) / M
+            inp_holder['input'] = inp_
+            S = tonum(inp_.shape[0]) / M
+            # snapshot of the arrays' contents now (the Arr objects are mutated by stores / havoc later)
+            out = Arr(out_.shape, out_.elem, out_.kind)
+            inp = Arr(inp_.shape, inp_.elem, inp_.kind)
 
             def fa(t):
                 s_t = block_sum(inp, t)
@@ -219,8 +224,8 @@ def _mk_hdd(M):
             sig = p.signature()
             if p.kind == 'end':
                 K.discharge_loop_obls(p, replay=rep)
-                for (_, c, txt, where) in [(a, b_, c_, d_) for (a, b_, c_, d_) in p.ex.side]:
-                    pass
+                bad = purity_violations(p, None)
+                (K.fail if bad else K.ok)(f'frame.iteration[{sig}]', '; '.join(bad) if bad else 'the loop body stores only into the local copy')
                 continue
             if p.kind == 'raise':
                 K.prove(f'noraise[{sig}]', p.pc, False, replay=rep, words='HDD accepts every slot sequence made of whole symbols')
@@ -284,7 +289,9 @@ def _mk_sdd(M):
                 mk_gv(ex, sps=sps)
                 x = mk_esig(ex, 'x', S_ * M * sps, noise=noise)
                 return x, ex.call_fn(fs_, [x, M], {})
-            ps = K.paths(run, [S_ >= 1, sps >= 1, t >= 0, t < S_, j >= 0, j < M])
+            # arithmetic lemma supplied to the solver (non-linear: S*(M*sps) is a multiple of M*sps)
+            lem = [(S_ * M * sps) % (M * sps) == 0, (S_ * M * sps) / (M * sps) == S_, (S_ * M * sps) / sps == S_ * M, (S_ * M * sps) % sps == 0]
+            ps = K.paths(run, [S_ >= 1, sps >= 1, t >= 0, t < S_, j >= 0, j < M] + lem)
             for p in ps:
                 sig = f'noise={noise}][{p.signature()}'
                 if p.kind != 'ret':
@@ -389,5 +396,6 @@ def bounded(K):
 
 def frame_runs(K):
     n = z3.Int('n')
-    fe = fn(K, 'ppm.PPM_ENCODER')
-    return [('ppm.PPM_ENCODER', lambda ex: ex.call_fn(fe, [mk_binseq(ex, 'b', n), 4], {}), [n >= 2], None)]
+    fe, fh = fn(K, 'ppm.PPM_ENCODER'), fn(K, 'ppm.HDD')
+    return [('ppm.PPM_ENCODER', lambda ex: ex.call_fn(fe, [mk_binseq(ex, 'b', n), 4], {}), [n >= 2], None),
+            ('ppm.HDD', lambda ex: ex.call_fn(fh, [mk_binseq(ex, 'x', n), 4], {}), [n >= 4, n % 4 == 0], lambda ex: setup_hdd(ex, 4, {}))]
